@@ -103,6 +103,7 @@ type c25exec struct {
 	passActions int
 
 	pending []pendingPref // transitions whose only problem is "expiration also due"
+	callCtx context.Context // ctx of the reconciler call being intercepted (may carry its transaction)
 
 	discard string // non-empty: scenario unusable (reason)
 	fired   []string
@@ -111,8 +112,19 @@ type c25exec struct {
 
 func (x *c25exec) key(k string) storage.ObjectKey { return storage.MustNewObjectKey(k) }
 
+// inTx reports whether the reconciler wrapped the intercepted call in a
+// database transaction (a fixed reconciler may re-check and act atomically).
+func inTx(ctx context.Context) bool {
+	_, ok := database.TxControllerFromContext(ctx)
+	return ok
+}
+
 func (x *c25exec) listKey(k string) []storage.ObjectVersion {
-	res, err := x.inner.ListObjectVersions(x.ctx, x.bucket, storage.ListObjectVersionsOptions{Prefix: &k, MaxKeys: 1000})
+	ctx := x.ctx
+	if x.callCtx != nil {
+		ctx = x.callCtx
+	}
+	res, err := x.inner.ListObjectVersions(ctx, x.bucket, storage.ListObjectVersionsOptions{Prefix: &k, MaxKeys: 1000})
 	if err != nil {
 		x.discard = "list-failed:" + err.Error()
 		return nil
@@ -501,6 +513,10 @@ func (x *c25exec) violation(sig, what string, act c25action, before any, extra m
 	for k, v := range extra {
 		w[k] = v
 	}
+	if os.Getenv("VERIF_LOG") != "" {
+		b, _ := json.Marshal(w)
+		fmt.Fprintf(os.Stderr, "WITNESS %s %s\n", sig, b)
+	}
 	x.r.Violation(sig, what, w)
 }
 
@@ -608,6 +624,12 @@ func (x *c25exec) maybeReplace(k string) {
 	if x.replaceMode == "" || x.replacedKey[k] {
 		return
 	}
+	if x.callCtx != nil && inTx(x.callCtx) {
+		// a concurrent writer cannot interleave inside the reconciler's own
+		// transaction; the overwrite was injected before it began (WithTransaction)
+		x.r.Count("replaced-after-listing.not-possible-inside-reconciler-transaction", 1)
+		return
+	}
 	cur := x.m.current(k)
 	if cur == nil || cur.Marker {
 		return
@@ -681,9 +703,38 @@ func (s *recStorage) ListMultipartUploads(ctx context.Context, b storage.BucketN
 	return s.Next.ListMultipartUploads(ctx, b, o)
 }
 
+// The overwrite "after the key was listed" is injected at the reconciler's
+// first access to the key after its listing, whatever that access is.
 func (s *recStorage) GetObjectTagging(ctx context.Context, b storage.BucketName, k storage.ObjectKey, o *storage.ObjectTaggingOptions) (map[string]string, error) {
 	s.x.r.Count("reconciler.calls.GetObjectTagging", 1)
+	if (o == nil || o.VersionID == nil) && b.String() == s.x.bucket.String() {
+		s.x.callCtx = ctx
+		s.x.maybeReplace(k.String())
+		s.x.callCtx = nil
+	}
 	return s.Next.GetObjectTagging(ctx, b, k, o)
+}
+
+func (s *recStorage) HeadObject(ctx context.Context, b storage.BucketName, k storage.ObjectKey, o *storage.HeadObjectOptions) (*storage.Object, error) {
+	s.x.r.Count("reconciler.calls.HeadObject", 1)
+	if (o == nil || o.VersionID == nil) && b.String() == s.x.bucket.String() {
+		s.x.callCtx = ctx
+		s.x.maybeReplace(k.String())
+		s.x.callCtx = nil
+	}
+	return s.Next.HeadObject(ctx, b, k, o)
+}
+
+// WithTransaction: a reconciler that re-checks and acts inside one transaction
+// cannot be interleaved; the concurrent overwrite lands just before it begins.
+func (s *recStorage) WithTransaction(ctx context.Context, opts *sql.TxOptions, fn func(ctx context.Context, txStorage storage.Storage) error) error {
+	s.x.r.Count("reconciler.calls.WithTransaction", 1)
+	if !inTx(ctx) && s.x.replaceMode != "" {
+		for _, k := range s.x.m.sortedKeys() {
+			s.x.maybeReplace(k)
+		}
+	}
+	return s.DelegatingStorage.WithTransaction(ctx, opts, fn)
 }
 
 func (s *recStorage) DeleteObject(ctx context.Context, b storage.BucketName, key storage.ObjectKey, opts *storage.DeleteObjectOptions) (*storage.DeleteObjectResult, error) {
@@ -696,6 +747,8 @@ func (s *recStorage) DeleteObject(ctx context.Context, b storage.BucketName, key
 	if opts != nil {
 		vid = opts.VersionID
 	}
+	x.callCtx = ctx
+	defer func() { x.callCtx = nil }()
 	if vid == nil {
 		x.maybeReplace(k)
 	}
@@ -765,6 +818,8 @@ func (s *recStorage) TransitionObjectStorageClass(ctx context.Context, b storage
 	if opts != nil {
 		vid = opts.VersionID
 	}
+	x.callCtx = ctx
+	defer func() { x.callCtx = nil }()
 	if vid == nil {
 		x.maybeReplace(k)
 	}
@@ -1054,14 +1109,9 @@ func runC25(tier, replay string) {
 		if x.discard != "" {
 			fmt.Println("replay: scenario set aside:", x.discard)
 		}
-		if ok {
-			fmt.Println("replay: reproduced")
-		} else {
-			fmt.Println("replay: not reproduced")
-		}
 		_ = inner.Stop(context.Background())
 		env.Close()
-		r.Finish()
+		finishReplay(r, ok)
 	}
 
 	n := r.N(480, 12000)
